@@ -420,6 +420,9 @@ type outcome struct {
 
 var errSkip = errors.New("precondition not met")
 
+// errInfra marks failures of the test machinery: they end the test without a recorded case (driver: inconclusive).
+var errInfra = errors.New("infrastructure")
+
 func overlaps(p seriesProblem, s selector) bool {
 	for _, r := range s.Ranges {
 		if p.First <= r[1] && p.Last >= r[0] {
@@ -471,7 +474,7 @@ func check(c Case) (out outcome, err error) {
 	}
 	p0, e0, err := probe(anchor)
 	if err != nil {
-		return out, fmt.Errorf("oracle engine failed: %w", err)
+		return out, fmt.Errorf("%w: oracle engine failed: %v", errInfra, err)
 	}
 
 	res := lint.Files(
@@ -483,14 +486,14 @@ func check(c Case) (out outcome, err error) {
 		return out, fmt.Errorf("pint panicked at %s: %v\n%s", res.PanicAt, res.Panic, res.Stack)
 	}
 	if res.CfgErr != nil {
-		return out, fmt.Errorf("harness bug: config rejected: %v\n%s", res.CfgErr, c.config())
+		return out, fmt.Errorf("%w: config rejected: %v\n%s", errInfra, res.CfgErr, c.config())
 	}
 	if res.FindErr != nil {
-		return out, fmt.Errorf("harness bug: discovery failed: %v", res.FindErr)
+		return out, fmt.Errorf("%w: discovery failed: %v", errInfra, res.FindErr)
 	}
 	p1, e1, err := probe(time.Now())
 	if err != nil {
-		return out, fmt.Errorf("oracle engine failed: %w", err)
+		return out, fmt.Errorf("%w: oracle engine failed: %v", errInfra, err)
 	}
 	for k := range p0 {
 		if p0[k] != p1[k] {
@@ -511,12 +514,12 @@ func check(c Case) (out outcome, err error) {
 		if e.Rule.Name() == c.mainRuleName() {
 			mainFound = true
 			if e.Rule.Error.Err != nil {
-				return out, fmt.Errorf("harness bug: main rule does not parse: %v\n%s", e.Rule.Error.Err, c.yaml())
+				return out, fmt.Errorf("%w: main rule does not parse: %v\n%s", errInfra, e.Rule.Error.Err, c.yaml())
 			}
 		}
 	}
 	if !mainFound {
-		return out, fmt.Errorf("harness bug: main rule not found\n%s", c.yaml())
+		return out, fmt.Errorf("%w: main rule not found\n%s", errInfra, c.yaml())
 	}
 	for _, r := range res.Reports {
 		if r.Rule.Name() != c.mainRuleName() {
@@ -967,6 +970,9 @@ func TestPropSeries(t *testing.T) {
 			rec.Count("skipped", 1)
 			return
 		}
+		if errors.Is(err, errInfra) {
+			rt.Fatalf("%v", err) // no recorded case: inconclusive
+		}
 		rec.Case(class, nontrivial, c.yaml()+"\x00"+c.config()+"\x00"+fmt.Sprint(c.patterns()), func() any { return c })
 		rec.Count("server_requests", int64(len(out.Log)))
 		for _, s := range out.Selectors {
@@ -1001,7 +1007,9 @@ func TestReplay(t *testing.T) {
 	if err := vstat.LoadReplay(p, &c); err != nil {
 		t.Fatal(err)
 	}
-	if _, err := check(c); err != nil && !errors.Is(err, errSkip) {
+	if _, err := check(c); errors.Is(err, errInfra) {
+		t.Skipf("%v", err) // neither pass nor fail: inconclusive
+	} else if err != nil && !errors.Is(err, errSkip) {
 		t.Fatalf("%v", err)
 	}
 }
